@@ -32,11 +32,24 @@ pub fn ops() -> Vec<(&'static str, Checker)> {
 
 /// Deterministic word stream (splitmix64) for the fallible random APIs.
 struct SeqRng(u64);
+thread_local! {
+    static SEQ_WORDS: std::cell::Cell<u64> = const { std::cell::Cell::new(0) };
+}
 impl rand_core::RngCore for SeqRng {
     fn next_u32(&mut self) -> u32 {
         self.next_u64() as u32
     }
     fn next_u64(&mut self) -> u64 {
+        // logical step budget for "loops forever": a sampler fed a well-distributed stream must
+        // return long before a million words; unwinding is the only way out of its loop
+        let n = SEQ_WORDS.with(|c| {
+            c.set(c.get() + 1);
+            c.get()
+        });
+        if n > 1 << 20 {
+            SEQ_WORDS.with(|c| c.set(0));
+            panic!("non-termination: more than 2^20 random words consumed without returning");
+        }
         self.0 = self.0.wrapping_add(0x9e3779b97f4a7c15);
         let mut z = self.0;
         z = (z ^ (z >> 30)).wrapping_mul(0xbf58476d1ce4e5b9);
@@ -54,6 +67,7 @@ impl rand_core::RngCore for SeqRng {
 /// no-panic: run `f`, record a violation named after the operation if it panicked.
 fn np<R>(rep: &mut Rep, name: &str, f: impl FnOnce() -> R) -> Option<R> {
     rep.tally("calls");
+    SEQ_WORDS.with(|c| c.set(0));
     match catch(f) {
         Ok(r) => Some(r),
         Err(m) => {
